@@ -19,6 +19,7 @@ mod c09;
 mod c07;
 mod c06;
 mod c17;
+mod c18;
 
 use util::Ctx;
 
@@ -59,6 +60,8 @@ fn main() {
         ("gen", "C07") => c07::gen(&mut ctx),
         ("gen", "C06") => c06::gen(&mut ctx),
         ("gen", "C17") => c17::gen(&mut ctx),
+        ("gen", "C18") => c18::gen(&mut ctx, seed),
+        ("c18case", idx) => { let i: usize = idx.parse().unwrap_or(0); c18::run_one(&mut ctx, i); }
         _ => { eprintln!("unknown command"); std::process::exit(2); }
     }
     ctx.finish(stats.as_deref());
